@@ -54,6 +54,8 @@ type (
 		F string
 		V Expr
 	}
+	// array update a[i := v]
+	EStore struct{ X, I, V Expr }
 )
 
 // ---------- contract items ----------
@@ -113,6 +115,7 @@ type FuncC struct {
 	Splits    []SplitSpec
 	Loops     map[int]*LoopC
 	PanicTags []string // property tags for safety obligations of this function
+	Arith     string   // "" (native div/mod) or "uf"
 	Line      int
 }
 
@@ -355,8 +358,14 @@ func (p *cparser) parsePostfix(e Expr) Expr {
 			}
 		case p.accept("["):
 			i := p.parseExpr(0)
-			p.expect("]")
-			e = &EIndex{X: e, I: i}
+			if p.accept(":=") {
+				v := p.parseExpr(0)
+				p.expect("]")
+				e = &EStore{X: e, I: i, V: v}
+			} else {
+				p.expect("]")
+				e = &EIndex{X: e, I: i}
+			}
 		case p.isOp("{"):
 			// record update x{F: v}
 			p.next()
@@ -396,7 +405,7 @@ func parseExprString(s string) (e Expr, err error) {
 // ---------- file-level parser ----------
 
 var itemKeywords = map[string]bool{"pure": true, "func": true, "extern": true, "trusted": true, "lemma": true, "ghost": true}
-var clauseKeywords = map[string]bool{"requires": true, "ensures": true, "modifies": true, "decreases": true, "split": true,
+var clauseKeywords = map[string]bool{"arith": true, "requires": true, "ensures": true, "modifies": true, "decreases": true, "split": true,
 	"loop": true, "invariant": true, "backedge": true, "iteration": true, "bounded": true, "panics": true}
 
 // readContractLines returns the logical lines (keyword + text) of all //@ lines
@@ -570,10 +579,10 @@ func ParseContracts(paths []string) (*Contracts, error) {
 				cs.Pures[name] = &PureFn{Name: name, Params: params, Body: body, Text: l.text}
 			case "ghost":
 				f := strings.Fields(l.text)
-				if len(f) != 2 {
+				if len(f) < 2 {
 					return nil, fail(fmt.Errorf("ghost: expected 'Type.field sort'"))
 				}
-				cs.Ghosts[f[0]] = f[1]
+				cs.Ghosts[f[0]] = strings.Join(f[1:], " ")
 			case "lemma":
 				cur, curLoop = nil, nil
 				k := strings.Index(l.text, ":")
@@ -616,6 +625,8 @@ func ParseContracts(paths []string) (*Contracts, error) {
 					}
 					curLoop = &LoopC{Ord: n}
 					cur.Loops[n] = curLoop
+				case "arith":
+					cur.Arith = strings.TrimSpace(l.text)
 				case "panics":
 					tags, _ := parseTags(l.text)
 					cur.PanicTags = append(cur.PanicTags, tags...)
